@@ -224,4 +224,20 @@ PROPS = {
             {"name": "histories", "test": "TestProp_C04", "kind": "rapid", "checks_quick": 500, "checks_thorough": 20000, "shards": 6},
         ],
     },
+    "C05": {
+        "manifest": {
+            "text": "C07-style histories (sync, upload, compaction, snapshot, retention, close) with the file client wrapped by a fault injector that consults a generated per-call plan {ok, fail-before, fail-after-effect, partially consumed upload, iterator error, reader error}; after every client call the level-0 sequence of the underlying directory must be gapless; every acknowledgement must be backed by stored files (position equality + R1); mid-history restores must give a committed state; after a fault-free suffix the replica catches up (R1)",
+            "note": "faults are injected at the public ReplicaClient interface; reader faults are kept rare because each costs the code's own 250ms+ back-off; close-before-init finding shared with C01",
+            "technique": "stateful property-based testing (rapid) with generated fault plans and invariants checked after every storage call",
+        },
+        "binary": "props",
+        "level": "exploration",
+        "rule": ("C07 histories x a fault plan of 8-40 entries (cycled over the ReplicaClient calls, fault density 5-40%) followed by a fault-free suffix of 3 "
+                 "write+SyncAndWait rounds. Non-trivial = an upload failed after taking effect or was only partially consumed, and a later round was "
+                 "acknowledged; distinct = hash of (config, abstracted ops, plan)."),
+        "assumptions": ["file replica client underneath the injector", "monitors off: the retry loops exercised are SyncAndWait's caller-driven retries and Close's shutdown retry"],
+        "runs": [
+            {"name": "histories", "test": "TestProp_C05", "kind": "rapid", "checks_quick": 400, "checks_thorough": 15000, "shards": 6},
+        ],
+    },
 }
